@@ -273,3 +273,34 @@ def panic_inventory(ctx, rule):
     ctx.count("explicit_panic_sites", n)
     ctx.floor(rule, "explicit_panic_sites", n, 10)
     ctx.notes.append("panic classes: %s" % classes)
+
+
+def strict_posting_assertion(ctx):
+    """does the index writer still assert (debug_assert!) that posting lists are *strictly* increasing?"""
+    for b in ctx.facts.fns():
+        if b.kind != "closure" or "TrigramIndex::add" not in b.id:
+            continue
+        sy = ctx.sym(b)
+        for bi, si, st in b.iter_stmts():
+            if st["k"] == "assign" and st["rv"]["k"] == "binop" and st["rv"]["op"] in ("Lt", "Gt") and not b.blocks[bi]["cleanup"]:
+                e = sy.rvalue(st["rv"])
+                if U.expr_calls(e, "last") and _in_debug_assert_stmt(ctx, b, bi):
+                    return True
+            if st["k"] == "assign" and st["rv"]["k"] == "binop" and st["rv"]["op"] in ("Le", "Ge"):
+                pass
+        for bi, t in b.calls():
+            if (t.get("cn") or "").endswith("PartialOrd::lt") and _in_debug_assert_stmt(ctx, b, bi):
+                return True
+    return False
+
+
+def _in_debug_assert_stmt(ctx, b, bi):
+    if _in_debug_assert(ctx, b, bi):
+        return True
+    # the comparison feeds a switch that leads to a debug_assert! panic
+    cfg = ctx.cfg(b)
+    for x in cfg.reachable_from(bi):
+        t = b.blocks[x]["term"]
+        if t and t["k"] == "call" and (t.get("cn") or "").endswith("begin_panic") and "debug_assert!" in ((t.get("loc") or {}).get("exp") or []):
+            return True
+    return False
